@@ -307,13 +307,11 @@ theorem indepSegs_v (A : Agree N E) (hk : 1 ≤ k) (hk' : 1 ≤ k') {e : Expr} {
     (ihe : Indep E call ρ k call' ρ' k' env e) (ih : IndepSegs E call ρ k call' ρ' k' env rest) :
     IndepSegs E call ρ k call' ρ' k' env (.v e :: rest) := by
   intro acc σ h8e hp
-  simp only [h8Segs, Bool.and_eq_true, Bool.or_eq_true, Bool.not_eq_true'] at h8e
-  obtain ⟨⟨h8v, hunk⟩, h8r⟩ := h8e
-  simp only [hseSegs, Bool.or_eq_false_iff] at hp
-  have hu : isUnknown (evaluate E e) = false := by
-    rcases hunk with h | h
-    · exact h
-    · rw [hp.1] at h; cases h
+  simp only [h8Segs, Bool.and_eq_true] at h8e
+  obtain ⟨h8v, h8r⟩ := h8e
+  simp only [hseSegs, Bool.not_false, Bool.true_and, Bool.or_eq_false_iff, maybeMeta_eq] at hp
+  have hu : isUnknown (evaluate E e) = false := hp.1.1
+  replace hp : hasSideEffects E false e = false ∧ hseSegs E false rest = false := ⟨hp.1.2, hp.2⟩
   simp only [evalSegs, ← ihe σ h8v hp.1]
   refine bind_congr fun vs σ1 e1 => ?_
   obtain ⟨se, xe⟩ := good E call ρ k env A e σ σ1 vs h8v e1
